@@ -320,6 +320,13 @@ def check_typed(output, pos, v, ht, pre, suf):
             return 'date-not-quoted', {'rendered': ht[:300]}
         if m.group(1) != str(v):
             return 'date-literal-other-value', {'rendered': ht[:300]}
+        # a type word in front of the literal (ANSI `DATE '..'` / `TIMESTAMP '..'`) must be the value's type: `DATE '2020-01-02 03:04:05'`
+        # is no datetime (refused, or the time of day dropped)
+        kw_ = re.search(r"\b(DATE|TIMESTAMP|DATETIME|TIME)\s*$", ht[:m.start()], re.I)
+        if kw_:
+            is_dt = isinstance(v, dt.datetime)
+            if (kw_.group(1).upper() == 'DATE') == is_dt or kw_.group(1).upper() == 'TIME':
+                return 'date-literal-typed-as-another-type', {'rendered': ht[:300], 'type_word': kw_.group(1)}
         return None, ht
     if isinstance(v, int):
         try:
